@@ -28,6 +28,24 @@ NOTES = {
  "C17-E": "missed at first; C17 gained the family roots/refreshed-twice",
  "C20-E": "missed at first; C20's source may now publish between two get-sth calls of a one-shot pass",
  "C20-F": "missed at first (empty answers were excluded as outside 'from one up to'); C16 and C20 now answer with an empty entry list as a fault",
+ "C02-G": "missed at first; C02 gained two trust anchors with the same subject and key",
+ "C02-H": "missed at first; C02 gained a lenient-only certificate (non-minimal serial, via ref/pki SerialContent) followed by extra bytes",
+ "C03-H": "missed at first; C03 marks the certificate's own AKI critical in half of the layouts",
+ "C05-G": "missed at first; C05 signs digests of the other linked hashes under neighbouring code points",
+ "C05-H": "missed at first; C05's log-list cases gained appended line terminators and genuine signatures ending in LF / CR",
+ "C06-H": "missed at first; C06 gained `signfail1` (one failing call to the signer)",
+ "C08-G": "missed at first; C08's error faults gained unassigned gRPC codes",
+ "C11-G": "missed at first; C11 gained critical single-kind SAN certificates with an empty subject",
+ "C12-H": "missed at first; C12 gained the TemporalLogClient.GetAcceptedRoots pass",
+ "C14-H": "missed at first (drivers were not exercised); C14 gained the SQL driver pass over go-sqlmock",
+ "C15-G": "C15 itself missed it at first (C18 caught it); C15's timestamps gained 0001-01-01T00:00:00Z",
+ "C15-H": "missed at first; C15 hands accepted PostgreSQL connection strings to the storage constructor",
+ "C16-H": "missed at first; C16 gained unparsable entries inside batches",
+ "C17-G": "missed at first; C17's answers gained (nil, nil)",
+ "C17-H": "missed at first; C17 refuses a negative weight before every scenario and checks group membership",
+ "C19-H": "missed at first; C19 now demands the held STH in every 409",
+ "C20-G": "missed at first; C20 gained continuous scenarios with a non-zero end_index",
+ "C20-H": "missed at first; C20 requires an equal-size forked destination to be reported (also in continuous mode)",
  "C16-A": "missed at first; C16's callback now retains the batches and re-reads them after the scan",
  "C01-D": "missed at first; ref/pki gained RSA keys published with a non-canonical SubjectPublicKeyInfo, used as issuers in C01 and C03",
  "C02-C": "missed at first (every pass pinned `now`); C02 gained the live-instance pass: real SetUpInstance from a LogConfig in a synctest bubble, one instance submitted to before and after the leaves' NotAfter",
